@@ -58,6 +58,8 @@ func cmdGen(args []string) {
 			b = g.behC20()
 		case "C14":
 			b = g.scnC14()
+		case "C09":
+			b = g.behC09()
 		default:
 			if fn, ok := genFns[*prop]; ok {
 				b = fn(g)
@@ -920,4 +922,55 @@ func (g *gen) scnC14() M {
 	}
 	return M{"table": table, "hdr": hdr, "trailer": trailer, "corrupt": corrupt, "cuts": []any{}, "bytecuts": bytecuts,
 		"ncols": ncols, "emptychunks": g.chance(0.2)}
+}
+
+// behC09: rows over all 13 types, 1..8 columns, up to 10 rows, random NULL
+// kinds and empties, both protocols, random result-format lists.
+func (g *gen) behC09() M {
+	steps := []any{startup("u")}
+	rounds := 1 + g.rng.Intn(3)
+	for r := 0; r < rounds; r++ {
+		g.id++
+		id := g.id
+		nc := 1 + g.rng.Intn(8)
+		cols := []any{}
+		for i := 0; i < nc; i++ {
+			cols = append(cols, M{"name": fmt.Sprintf("c%d", i), "oid": 25})
+		}
+		prog := []any{}
+		emptyCol := map[int]bool{}
+		for i := 0; i < nc; i++ {
+			emptyCol[i] = g.chance(0.2)
+		}
+		for i := 0; i < g.rng.Intn(10); i++ {
+			cells := []any{}
+			for j := 0; j < nc; j++ {
+				switch {
+				case g.chance(0.2):
+					cells = append(cells, M{"c": "null", "nk": g.pick("nil", "ptr", "inv")})
+				case emptyCol[j] && g.chance(0.4):
+					cells = append(cells, M{"c": "empty"})
+				default:
+					cells = append(cells, M{"c": "v"})
+				}
+			}
+			prog = append(prog, M{"op": "row", "cells": cells})
+		}
+		prog = append(prog, M{"op": "complete", "tag": "SELECT"}, M{"op": "ret", "r": "nil"})
+		st := M{"id": id, "cols": cols, "oids": []any{}, "anytype": true, "prog": prog}
+		q := M{"id": id, "parse": "ok", "stmts": []any{st}}
+		if g.chance(0.3) {
+			steps = append(steps, send(M{"t": "Q", "q": q}))
+			continue
+		}
+		steps = append(steps, send(M{"t": "P", "name": "", "q": q, "noids": 0}),
+			send(M{"t": "B", "portal": "", "stmt": "", "pfmt": []any{}, "params": []any{}, "rfmt": g.codeList(nc)}))
+		if g.chance(0.8) {
+			steps = append(steps, send(M{"t": "D", "kind": "P", "name": ""}))
+		}
+		steps = append(steps, send(M{"t": "E", "portal": "", "max": 0}), send(M{"t": "S"}))
+	}
+	cfg := baseCfg()
+	cfg["limit"] = 1 << 20
+	return M{"cfg": cfg, "steps": steps}
 }
